@@ -194,7 +194,11 @@ def observe(spec, obs, poi, mu, want_limit=False, fit_kw=None):
     return out
 
 
-def relclose(a, b, rel):
+def relclose(a, b, rel, tail=False):
+    # for a tail probability p = Phi(-x): dp/p = dq/2 with q = x^2 ~ -2 ln p, and the fit noise on q is relative,
+    # so the relative noise of p grows like -ln p (1.7e-4 observed between backends at p = 2.4e-12)
+    if tail and a > 0 and b > 0:
+        rel = rel * max(1.0, -math.log(min(a, b)))
     return abs(a - b) <= rel * (abs(a) + abs(b)) / 2 + 1e-12
 
 
@@ -250,10 +254,10 @@ def check_model(case, shard):
         probs = []
         if not abs((new["nll"] - const) - base["nll"]) <= (1e-9 if exact else 1e-5) * (1 + abs(base["nll"])):
             probs.append(f"maximised 2NLL {base['nll']!r} -> {new['nll']!r} (expected constant {const:.6f})")
-        if not relclose(new["cls"], base["cls"], rel):
+        if not relclose(new["cls"], base["cls"], rel, tail=not exact):
             probs.append(f"CLs_obs {base['cls']!r} -> {new['cls']!r}")
         for i in range(5):
-            if not relclose(new["band"][i], base["band"][i], rel):
+            if not relclose(new["band"][i], base["band"][i], rel, tail=not exact):
                 probs.append(f"CLs_exp[{i}] {base['band'][i]!r} -> {new['band'][i]!r}")
                 break
         if want_limit:
@@ -291,9 +295,9 @@ def check_model(case, shard):
             probs = []
             if not abs(other["nll"] - base["nll"]) <= (2e-3 if opt == "minuit" else 1e-5) * (1 + abs(base["nll"])):
                 probs.append(f"maximised 2NLL {base['nll']!r} vs {other['nll']!r}")
-            if not relclose(other["cls"], base["cls"], rel):
+            if not relclose(other["cls"], base["cls"], rel, tail=True):
                 probs.append(f"CLs_obs {base['cls']!r} vs {other['cls']!r}")
-            if any(not relclose(other["band"][i], base["band"][i], rel) for i in range(5)):
+            if any(not relclose(other["band"][i], base["band"][i], rel, tail=True) for i in range(5)):
                 probs.append(f"CLs_exp {base['band']} vs {other['band']}")
             if probs:
                 shard.violate(f"C15/configuration:{be}-{opt}", "; ".join(probs) + f" ({home}/scipy vs {be}/{opt})", dict(case, config=[be, opt]), "configuration_agreement")
